@@ -40,6 +40,8 @@ RecChecks(kt, c, F) ==
        Chk("C09", "size_le_300", Len(c.enc) <= MaxSize),
        Chk("C04", "enc_is_encoding_of_fields", encOk),
        Chk("C08", "pairs_sorted", IsSortedPairs(c.pairs)),
+       \* whatever produced the record: its node id is the id of the key its own public-key accessor returns
+       Chk("C10", "nid_from_public_key", c.nid_pk # <<>> => c.nid_pk = <<c.nid>>),
        Chk("TOOL", "rec_facts_match", factsOk)>>
      \o When(encOk /\ factsOk,
        <<Chk("TOOL", "dec_facts_match", ~D.fm),
@@ -47,8 +49,10 @@ RecChecks(kt, c, F) ==
          Chk("C05", "verify_true", c.verify = <<TRUE>>)>>
        \o When(D.verdict = "accept",
          <<Chk("C10", "nid_is_hash_of_pk", c.nid = D.nid),
-           Chk("C10", "nid_from_public_key", c.nid_pk = <<c.nid>>),
-           Chk("C05", "public_key_accessor", c.pk = <<D.pk>>)>>))
+           Chk("C10", "nid_from_public_key_accessor_works", c.nid_pk # <<>>),
+           Chk("C05", "public_key_accessor", c.pk = <<D.pk>>),
+           \* the implementation's own decoder takes the record's encoding back, as an equal record
+           Chk("C05", "accepted_again_by_the_decoder", c.again = <<TRUE>>)>>))
 
 (***************************************************************************)
 (* Extended observation of a record: text forms, typed accessors, getters, *)
@@ -363,7 +367,9 @@ CallChecks(e) ==
              \* scheme, which C05 does not quantify over -- if it is not refused its result is unspecified
              unspec == ok /\ KBase(e.kt) = "comb" /\ e.spk.scheme = "ed" /\ HasKey(pre.pairs, K_secp256k1)
          IN SelectSeq(RecChecks(e.kt, c, e.facts) \o MaybeExt(e, c) \o ReadBack(e),
-                      LAMBDA x : ~(unspec /\ x.p \in {"C05", "C10", "C04", "C12", "C15"})))
+                      \* (what every record satisfies whatever produced it stays: its node id is the id of the key its
+                      \*  own public-key accessor returns)
+                      LAMBDA x : ~(unspec /\ x.p \in {"C05", "C10", "C04", "C12", "C15"} /\ x.c # "nid_from_public_key")))
 
 BuildChecks(e) ==
   LET B == Build(e.kt, e.calls, e.spk, e.fault, SigLen(e))
